@@ -696,7 +696,9 @@ static void register_objects() {
   TOBJ(primitivEvaluateTensorAsFloat, float r = -77; PRIMITIV_C_STATUS st = primitivEvaluateTensorAsFloat(c(&x), &r); out = hexf(r); return st;,
        return hexf(x.to_float());)
   TOBJ(primitivEvaluateTensorAsArray, std::size_t n = 0; PRIMITIV_C_STATUS st = primitivEvaluateTensorAsArray(c(&x), nullptr, &n); if (st != OKST) return st;
-       std::vector<float> v(n + 1, -77); st = primitivEvaluateTensorAsArray(c(&x), v.data(), &n); if (v[n] != -77) out = "overrun"; v.resize(n); out += show(v); return st;,
+       std::vector<float> v(n + 1, -77); st = primitivEvaluateTensorAsArray(c(&x), v.data(), &n);
+       if (st != OKST) { out = "the size query succeeded, the read of the same tensor failed"; return OKST; }   // the two steps of one protocol must agree
+       if (v[n] != -77) out = "overrun"; v.resize(n); out += show(v); return st;,
        return show(x.to_vector());)
   TOBJ(primitivGetTensorArgmax, std::size_t n = 0; PRIMITIV_C_STATUS st = primitivGetTensorArgmax(c(&x), A.u(0), nullptr, &n); if (st != OKST) return st;
        std::vector<std::uint32_t> v(n + 1, 777); st = primitivGetTensorArgmax(c(&x), A.u(0), v.data(), &n); if (v[n] != 777) out = "overrun"; v.resize(n); out += show(v); return st;,
